@@ -23,8 +23,9 @@
     out, in order. *)
 From Coq Require Import String List ZArith Bool Sorted.
 From Coq Require Import Strings.Byte.
-From Paloma Require Import Base.Abi Base.AbiProofs Evm.SignFields Evm.SignBytes Evm.SignBytesProofs
-  Evm.MsgIds Evm.MsgIdsProofs.
+From Paloma Require Import Base.Abi Base.AbiProofs Base.AbiDec Base.AbiDecProofs
+  Evm.SignFields Evm.SignBytes Evm.SignBytesProofs
+  Evm.MsgIds Evm.MsgIdsProofs Evm.MsgIdsBatch Evm.MsgIdsBatchProofs.
 From Paloma Require Gen.C05.
 Import ListNotations.
 Open Scope Z_scope.
@@ -145,3 +146,140 @@ Theorem id_model_is_of_current_source :
   Gen.C05.put_replace_guard = true /\ Gen.C05.id_increment_is_last_plus_one = true.
 Proof. exact source_counter_shape. Qed.
 Print Assumptions id_model_is_of_current_source.
+
+(** ======================= second round ======================= *)
+
+(** The ABI DECODER (Base/AbiDec.v: follows the offsets in the heads, as go-ethereum's Unpack and
+    the EVM do) inverts the encoder on every well-typed value of a type without empty tuples whose
+    encoding is shorter than 2^256 bytes -- also when further bytes follow (calldata). *)
+Theorem abi_decode_encode : forall t v r, wf_ty t = true -> typed t v -> blen (enc v) < two256 ->
+  dec t (enc v ++ r) = Some v.
+Proof. exact dec_enc. Qed.
+Print Assumptions abi_decode_encode.
+
+(** Whatever the bytes, a decoded value is well typed; on a canonical encoding decode-then-encode
+    gives the bytes back (a non-canonical one decodes too: AbiDecProofs.noncanonical_sample). *)
+Theorem abi_decoded_is_typed_and_canonical_roundtrip :
+  (forall t d v, dec t d = Some v -> typed t v) /\
+  (forall t v0 v, wf_ty t = true -> typed t v0 -> blen (enc v0) < two256 -> dec t (enc v0) = Some v -> enc v = enc v0).
+Proof. exact (conj dec_typed dec_enc_canonical). Qed.
+Print Assumptions abi_decoded_is_typed_and_canonical_roundtrip.
+
+(** Injectivity of the encoding once more, this time THROUGH the offsets (independent of
+    abi_enc_injective, whose proof never reads one). *)
+Theorem abi_enc_injective_via_decoder : forall t v v', wf_ty t = true -> typed t v -> typed t v' ->
+  blen (enc v) < two256 -> enc v = enc v' -> v = v'.
+Proof. exact enc_injective_via_decoder. Qed.
+Print Assumptions abi_enc_injective_via_decoder.
+
+(** The arguments eth_txable.go packs for delivery, and for a batch the inputs of submit_batch, are
+    typed position by position as the compass ABI JSON shipped in the repository types its inputs;
+    their leaves are the delivered fields the theorems above quantify over; and where the scheme has
+    the deployment id the signing pre-image is the delivered argument list with the id inserted. *)
+Theorem delivered_arguments_are_the_compass_abi_inputs :
+  (forall k, map slot_ty (delivered_slots k) = abi_sig k /\ flatten_all (delivered_slots k) = delivered_fields k) /\
+  (forall k, In k [KLogicCall; KDeploy; KBatch] ->
+     filter (fun s => match s with SF FTurnstoneId => false | _ => true end) (signed_slots k) = delivered_slots k).
+Proof. exact (conj delivered_slots_match_abi signed_is_delivered_plus_id). Qed.
+Print Assumptions delivered_arguments_are_the_compass_abi_inputs.
+
+(** The precise clause on RAW values.  [raw_value it f] is what VerifyAgainstTX packs: the fees of
+    the message as they are (no default; none = the call cannot be built) and the elected estimate
+    as it is.  Among items that can be handed out for relaying (estimate elected, fees set), equal
+    signing bytes => equal raw delivered values -- all-zero fees are told apart from the defaults. *)
+Theorem signbytes_bind_raw_delivered_values :
+  forall (keccak : list byte -> list byte), (forall x, length (keccak x) = 32%nat) ->
+  forall it it', wf it -> wf it' -> kind_of it = kind_of it' -> via_bridge_contract (kind_of it) = true ->
+  relayable it -> relayable it' ->
+  sign_bytes keccak it = sign_bytes keccak it' ->
+  (forall f, In f (delivered_fields (kind_of it)) -> raw_value it f = raw_value it' f /\ raw_value it f <> None)
+  \/ keccak_collision keccak.
+Proof. exact signbytes_bind_raw_delivered_all. Qed.
+Print Assumptions signbytes_bind_raw_delivered_values.
+
+(** ... so the delivered call itself (selector and every argument but the consensus) is a function
+    of the signing bytes: collected signatures cannot authorise another call. *)
+Theorem signbytes_determine_delivered_calldata :
+  forall (keccak : list byte -> list byte), (forall x, length (keccak x) = 32%nat) ->
+  forall it it', wf it -> wf it' -> kind_of it = kind_of it' -> via_bridge_contract (kind_of it) = true ->
+  relayable it -> relayable it' ->
+  sign_bytes keccak it = sign_bytes keccak it' ->
+  (forall c, delivered_calldata c it = delivered_calldata c it' /\ delivered_calldata c it <> None)
+  \/ keccak_collision keccak.
+Proof. exact signbytes_determine_calldata_all. Qed.
+Print Assumptions signbytes_determine_delivered_calldata.
+
+(** For ALL items: the only raw values equal signing bytes cannot tell apart are estimate 0 <-> the
+    default and fees absent <-> the default fees (both written in the source as pigeon's defaults). *)
+Theorem indistinguishable_raw_values_are_the_documented_defaults :
+  forall (keccak : list byte -> list byte), (forall x, length (keccak x) = 32%nat) ->
+  forall it it', wf it -> wf it' -> kind_of it = kind_of it' -> via_bridge_contract (kind_of it) = true ->
+  sign_bytes keccak it = sign_bytes keccak it' ->
+  ((In FEstimate (bound_fields (kind_of it)) ->
+      it_estimate it = it_estimate it' \/
+      (it_estimate it = 0 /\ it_estimate it' = default_of (kind_of it)) \/
+      (it_estimate it = default_of (kind_of it) /\ it_estimate it' = 0)) /\
+   (In FRelayerFee (bound_fields (kind_of it)) ->
+      raw_fees (it_action it) = raw_fees (it_action it') \/
+      (raw_fees (it_action it) = None /\ raw_fees (it_action it') = Some default_fees) \/
+      (raw_fees (it_action it) = Some default_fees /\ raw_fees (it_action it') = None)))
+  \/ keccak_collision keccak.
+Proof. exact equal_signbytes_raw_classification. Qed.
+Print Assumptions indistinguishable_raw_values_are_the_documented_defaults.
+
+(** The relay gate [relayable] stands for is the one in the source now. *)
+Theorem relay_gate_is_of_current_source :
+  Gen.C05.relay_filter_has_gas_estimate = true /\
+  Gen.C05.batch_relay_requires_estimate = true /\
+  Gen.C05.fees_elected_with_estimate = true /\
+  (forall a, In a ["Message_UpdateValset"; "Message_SubmitLogicCall"; "Message_UploadUserSmartContract"; "Message_CompassHandover"]%string ->
+     In (a, true) Gen.C05.enqueue_sites_require_estimation /\ ~ In (a, false) Gen.C05.enqueue_sites_require_estimation).
+Proof. exact relay_gate_shape. Qed.
+Print Assumptions relay_gate_is_of_current_source.
+
+(** Lifetime: once removed, an id is in no queue of any chain ever again (whatever follows:
+    enqueues, replaces addressed to any queue, removes). *)
+Theorem removed_msg_id_never_comes_back : forall ops1 q i ops2,
+  Z.of_nat (length (ops1 ++ ORemove q i :: ops2)) < MsgIds.two64 ->
+  In i (ids (qs (run ops1) q)) ->
+  snd (step (run ops1) (ORemove q i)) = ROk /\
+  (forall q', ~ In i (ids (qs (run (ops1 ++ ORemove q i :: ops2)) q'))).
+Proof. exact removed_id_never_comes_back. Qed.
+Print Assumptions removed_msg_id_never_comes_back.
+
+(** Put with MsgIDToReplace through ANOTHER queue than the one holding the id, or for an id that is
+    in no queue, is refused and changes nothing. *)
+Theorem replace_through_wrong_queue_is_refused :
+  (forall ops q q' i c, Z.of_nat (length ops) < MsgIds.two64 -> In i (ids (qs (run ops) q)) -> q' <> q ->
+     step (run ops) (OPut q' i c) = (run ops, RErr)) /\
+  (forall s q i c, i <> 0 -> ~ In i (ids (qs s q)) -> step s (OPut q i c) = (s, RErr)).
+Proof. exact (conj replace_through_other_queue_refused replace_of_absent_id_refused). Qed.
+Print Assumptions replace_through_wrong_queue_is_refused.
+
+(** BatchQueue: every history that also stages messages (second counter) and processes batches is,
+    for messages and their ids, a base history that is not longer; hence ids still strictly
+    increase, are unique across queues, and staging hands out no message id. *)
+Theorem batch_queue_histories_are_base_histories : forall bops, exists ops,
+  (length ops <= length bops)%nat /\ base (brun bops) = run ops /\ ballocated_ids bops = allocated_ids ops.
+Proof. exact batch_simulation. Qed.
+Print Assumptions batch_queue_histories_are_base_histories.
+
+Theorem msg_ids_with_batch_queues : forall bops, Z.of_nat (length bops) < MsgIds.two64 ->
+  (StronglySorted Z.lt (ballocated_ids bops) /\ NoDup (ballocated_ids bops)) /\
+  (forall q q' i, In i (ids (qs (base (brun bops)) q)) -> In i (ids (qs (base (brun bops)) q')) ->
+     q = q' /\ NoDup (ids (qs (base (brun bops)) q)) /\ In i (ballocated_ids bops) /\ 1 <= i <= counter (base (brun bops))) /\
+  (forall s q c, base (fst (bstep s (BBatchPut q c))) = base s /\ balloc_of (BBatchPut q c) (snd (bstep s (BBatchPut q c))) = []).
+Proof.
+  exact (fun bops H => conj (batch_ids_strictly_increase bops H)
+          (conj (fun q q' i => batch_ids_unique_across_queues bops q q' i H)
+                (fun s q c => conj (proj1 (staging_is_not_a_message s q c)) (proj1 (proj2 (staging_is_not_a_message s q c)))))).
+Qed.
+Print Assumptions msg_ids_with_batch_queues.
+
+Theorem batch_queue_model_is_of_current_source :
+  Gen.C05.batch_id_counter_key_expr = "consensusBatchQueueIDCounterKey"%string /\
+  Gen.C05.id_counter_keys_distinct = true /\ Gen.C05.batch_put_stages_only = true /\
+  Gen.C05.batch_process_puts_through_base = true /\ 0 < Gen.C05.batch_max_size /\
+  Gen.C05.batched_queue_configurations = 0.
+Proof. exact batch_source_shape. Qed.
+Print Assumptions batch_queue_model_is_of_current_source.
